@@ -3,7 +3,7 @@ from .. import common as C
 from . import c07
 
 ID = "C08"
-MODULES = ["Helios.Props.C08", "Helios.Props.Code", "Helios.Props.C12"]
+MODULES = ["Helios.Props.C08", "Helios.Props.CodeCB", "Helios.Props.C12"]
 THEOREMS = [
     "Helios.CB.inv_init", "Helios.CB.inv_step", "Helios.CB.inv_run",
     "Helios.CB.never_stuck", "Helios.CB.accepted_config_live",
@@ -11,7 +11,7 @@ THEOREMS = [
     # rank and locks are taken in rank order (lockorder_sound: no reachable state is stuck)
     "Helios.Locks.lockorder_sound", "Helios.Facts.no_callback_under_lock", "Helios.Facts.lock_classes_ranked",
     "Helios.Facts.lock_order_ranked", "Helios.Facts.lock_analysis_clean",
-    "Helios.CodeTie.beforeRequest_refines", "Helios.CodeTie.afterRequest_refines", "Helios.CodeTie.translation_clean",
+    "Helios.CodeTie.beforeRequest_refines", "Helios.CodeTie.afterRequest_refines", "Helios.CodeTie.translation_clean_cb",
 ]
 
 
